@@ -9,6 +9,7 @@ Generic rule names emitted (mapped to property rule ids by C01/C02/C08/C09):
   TAGPOS  where the tag is written / read
   INPLACE load-before-store per byte (exact aliasing c == m)
   OUTRANGE nothing is written outside the documented output range on any path
+  INRANGE nothing is read beyond the declared input (memory safety only: C06)
   NONCE2  SIV second-pass nonce composition
   RT      decrypt returns check_tag's verdict on the tag just generated; no unresolved access (needed by the round trip whatever the cipher is)
 """
@@ -39,7 +40,7 @@ class Ctx:
 
 
 def run_paths(f, klen, word_args=()):
-    ex = irx.Exec(f, mode.Handler(klen), mode.havoc_state(klen // 32), word_args=word_args)
+    ex = irx.Exec(f, mode.Handler(klen), mode.havoc_state(klen // 32), word_args=word_args, auto=True)
     ps = ex.run()
     for p in ps:
         if any(e[0] == "cond-data" for e in p.events):
@@ -68,6 +69,15 @@ def hd_syms(f, header):
             break
         (ptrs if (I.get("ty") or "").endswith("*") else ints).append(I)
     return ptrs, ints
+
+
+def main_loop(f, ps):
+    """the data loop: the only loop the path executor could not simply follow (its trip count depends on the message length);
+    helper loops with a trip count decided by the path (copying the 1..3 left-over bytes ...) are followed and do not count"""
+    heads = {p.end[1] for p in ps if p.end[0] in ("loop-entry", "backedge")}
+    if len(heads) != 1:
+        raise Broken("%s: expected exactly one loop whose trip count depends on the data length, found %d (of %d loops): unrecognised shape" % (f.name, len(heads), len(f.loops)))
+    return next(iter(heads))
 
 
 def problems(p):
@@ -234,7 +244,7 @@ def check_absorb(ck, mod, ks, label, rulemap):
              "%d byte(s) zero-extended little-endian xored into word 3%s" % (r, "" if r == 4 else ", length %d injected into word 1" % r),
              "state after %s differs from the specification: %s" % (name, mode.first_diff(final, want)))
         ins = {k for (o, k) in mode.ins_of(p) if o == cur}
-        c.ob(ins <= set(range(r)), "OUTRANGE", "absorb-%s-reads" % name, "reads exactly bytes [0,%d) at the cursor" % r, "reads offsets %s with only %d byte(s) remaining" % (sorted(ins), r))
+        c.ob(ins <= set(range(r)), "INRANGE", "absorb-%s-reads" % name, "reads exactly bytes [0,%d) at the cursor" % r, "reads offsets %s with only %d byte(s) remaining" % (sorted(ins), r))
         c.ob(not problems(p), "MODE", "absorb-%s-clean" % name, "no unknown access", "unexpected accesses: %s" % problems(p)[:2])
         n += 6
     c.ob(seen == {0, 1, 2, 3, 4}, "ADVANCE", "absorb-classes", "all residue classes 0..3 and the full block are handled", "path classes found: %s" % sorted(seen))
@@ -257,9 +267,7 @@ def check_cipher(ck, mod, f, label, rulemap):
     ex, ps = run_paths(f, klen)
     if narrowings(c, f, ps):
         return 1
-    if len(f.loops) != 1:
-        raise Broken("%s: expected exactly one loop, found %d: unrecognised shape" % (f.name, len(f.loops)))
-    hdr = f.loops[0]["header"]
+    hdr = main_loop(f, ps)
     ptrs, ints = hd_syms(f, hdr)
     if len(ptrs) > 2 or len(ints) != 1:
         raise Broken("%s: expected at most two cursors and one remaining length at the loop head (found %d, %d)" % (f.name, len(ptrs), len(ints)))
@@ -434,8 +442,9 @@ def check_cipher(ck, mod, f, label, rulemap):
             c.ob(okal, "INPLACE", "%s-load-before-store" % name, "every input byte is loaded before the output byte at the same offset is stored (c == m is safe)",
                  "input byte %s is loaded after output byte %s was stored: in-place use reads overwritten data" % (badj, badj))
             ins = {k for (o, k) in mode.ins_of(p) if o == in_cur}
-            c.ob(ins <= set(range(r)), "OUTRANGE", "%s-reads" % name, "reads exactly input bytes [0,%d) at the cursor" % r,
-                 "reads input offsets %s with only %d byte(s) remaining" % (sorted(ins), r))
+            lim = r if enc else r + 8          # behind the last ciphertext byte the input still holds the 8 tag bytes
+            c.ob(ins <= set(range(lim)), "INRANGE", "%s-reads" % name, "reads only input bytes [0,%d) at the cursor" % lim,
+                 "reads input offsets %s with only %d byte(s) of input left" % (sorted(ins), lim))
             n += 5 + r
         # ---- suffix (tails only)
         if p.end[0] == "backedge":
